@@ -27,7 +27,10 @@ Wrapper
 * `C17_unit_failure_sets_last_error_partial` / `C17_streaming_failure_silent`
                                 same inside handlers, EXCEPT the three rejection paths of `streaming_*`
                                 (finding F11): proved counter-example.
-* `C17_sink_passthrough`        output bytes reach the sink exactly as `R` emitted them, in order.
+* `C17_utf8_never_reaches_R`    an argument that is not valid UTF-8 is answered with the failure value and the
+                                `Utf8Error` in `LAST_ERROR`; the unit is untouched.
+(sink bytes are handed through unchanged by construction of `applyEvents`; their equality with the Rust run is
+ checked by the lane oracle, not by a theorem.)
 -/
 import LolHtml.Lemmas.CApi
 import LolHtml.Model.CApiMiniR
@@ -190,6 +193,415 @@ open LolHtml.Model.CApi.Mini in
     history is rejected as not permitted. -/
 theorem C17_iter_headerPlus :
     (run .headerPlus iterWitnessProg (Env.init MiniR) iterWitnessCalls).isNotPermitted = true := by
+  decide +kernel
+
+/-! ## Wrapper: decode arguments ; call `R` ; encode the result -/
+
+theorem callR_spec {pol : Policy} {s s' : HState R} {op : ROp} {r : RRes}
+    (h : callR pol s op = .ok (s', r)) :
+    s'.u = (R.unitOp s.u op).1 ∧ r = (R.unitOp s.u op).2.1 := by
+  unfold callR at h
+  split at h
+  · split at h
+    · simp only [Res.ok.injEq, Prod.mk.injEq] at h
+      obtain ⟨rfl, rfl⟩ := h; exact ⟨rfl, rfl⟩
+    · simp at h
+    · simp at h
+  · simp at h
+
+/-- The Rust-level call a C entry point makes, if any: arguments decoded with `str::from_utf8`, the
+    boxed streaming handler identified by the handle it gets, the attribute by the iterator position. -/
+def mirrorOp (e : Env R) : COp → Option ROp
+  | .strGet _ f | .boolGet f | .rawGet f => some (.get f [])
+  | .optStrGet _ f args | .intGet f args =>
+    match decodeArgs args with
+    | .ok a => some (.get f a)
+    | .error _ => none
+  | .fallible f args =>
+    match decodeArgs args with
+    | .ok a => some (.call f a false)
+    | .error _ => none
+  | .infallible f args isHtml =>
+    match decodeArgs args with
+    | .ok a => some (.call f a isHtml)
+    | .error _ => none
+  | .void f => some (.call f [] false)
+  | .bytesFallible f b isHtml => some (.callBytes f b isHtml)
+  | .addEndTagHandler hid => some (.addEndTagHandler hid)
+  | .clearEndTagHandlers => some .clearEndTagHandlers
+  | .streaming f (.mk true true _ _) => some (.streaming f e.objs.length)
+  | .streaming _ _ => none
+  | .iterGet _ => some .attrCount
+  | .attrStrGet _ it f =>
+    match e.vars it with
+    | some h =>
+      match e.objs[h]? with
+      | some ⟨_, .attrIter pos _ _ _⟩ => some (.attrGet (pos - 1) f)
+      | _ => none
+    | none => none
+  | .iterNext _ | .iterFree _ | .strFree _ | .takeLastError _ => none
+
+/-- Every entry point on a rewritable unit changes the unit exactly as the mirrored Rust call does,
+    and not at all when there is none (C-only bookkeeping, or arguments that do not decode). -/
+theorem C17_wrapper_unit (pol : Policy) (t : Tid) (s s' : HState R) (op : COp)
+    (h : cUnitOp pol t s op = .ok s') :
+    s'.u = match mirrorOp s.env op with
+      | some rop => (R.unitOp s.u rop).1
+      | none => s.u := by
+  cases op with
+  | strGet dst f =>
+    simp only [cUnitOp, Res.bind_ok] at h
+    obtain ⟨⟨s1, r⟩, hc, h⟩ := h
+    have hc := (callR_spec hc).1
+    split at h
+    · simp only [Res.pure_ok] at h; subst h; simpa [mirrorOp] using hc
+    · simp at h
+  | optStrGet dst f args =>
+    simp only [cUnitOp] at h
+    split at h
+    · rename_i err hdec
+      simp only [Res.pure_ok] at h; subst h; simp [mirrorOp, hdec]
+    · rename_i a hdec
+      simp only [Res.bind_ok] at h
+      obtain ⟨⟨s1, r⟩, hc, h⟩ := h
+      have hc := (callR_spec hc).1
+      split at h
+      · simp only [Res.pure_ok] at h; subst h; simpa [mirrorOp, hdec] using hc
+      · simp only [Res.pure_ok] at h; subst h; simpa [mirrorOp, hdec] using hc
+      · simp at h
+  | intGet f args =>
+    simp only [cUnitOp] at h
+    split at h
+    · rename_i err hdec
+      simp only [Res.pure_ok] at h; subst h; simp [mirrorOp, hdec]
+    · rename_i a hdec
+      simp only [Res.bind_ok] at h
+      obtain ⟨⟨s1, r⟩, hc, h⟩ := h
+      have hc := (callR_spec hc).1
+      split at h
+      · simp only [Res.pure_ok] at h; subst h; simpa [mirrorOp, hdec] using hc
+      · simp at h
+  | fallible f args =>
+    simp only [cUnitOp] at h
+    split at h
+    · rename_i err hdec
+      simp only [Res.pure_ok] at h; subst h; simp [mirrorOp, hdec]
+    · rename_i a hdec
+      simp only [Res.bind_ok] at h
+      obtain ⟨⟨s1, r⟩, hc, h⟩ := h
+      have hc := (callR_spec hc).1
+      split at h
+      · simp only [Res.pure_ok] at h; subst h; simpa [mirrorOp, hdec] using hc
+      · simp only [Res.pure_ok] at h; subst h; simpa [mirrorOp, hdec] using hc
+      · simp at h
+  | infallible f args isHtml =>
+    simp only [cUnitOp] at h
+    split at h
+    · rename_i err hdec
+      simp only [Res.pure_ok] at h; subst h; simp [mirrorOp, hdec]
+    · rename_i a hdec
+      simp only [Res.bind_ok, Res.pure_ok] at h
+      obtain ⟨⟨s1, r⟩, hc, rfl⟩ := h
+      simpa [mirrorOp, hdec] using (callR_spec hc).1
+  | void f =>
+    simp only [cUnitOp, Res.bind_ok, Res.pure_ok] at h
+    obtain ⟨⟨s1, r⟩, hc, rfl⟩ := h
+    simpa [mirrorOp] using (callR_spec hc).1
+  | boolGet f =>
+    simp only [cUnitOp, Res.bind_ok] at h
+    obtain ⟨⟨s1, r⟩, hc, h⟩ := h
+    have hc := (callR_spec hc).1
+    split at h
+    · simp only [Res.pure_ok] at h; subst h; simpa [mirrorOp] using hc
+    · simp at h
+  | rawGet f =>
+    simp only [cUnitOp, Res.bind_ok, Res.pure_ok] at h
+    obtain ⟨⟨s1, r⟩, hc, rfl⟩ := h
+    simpa [mirrorOp] using (callR_spec hc).1
+  | bytesFallible f b isHtml =>
+    simp only [cUnitOp, Res.bind_ok] at h
+    obtain ⟨⟨s1, r⟩, hc, h⟩ := h
+    have hc := (callR_spec hc).1
+    split at h
+    · simp only [Res.pure_ok] at h; subst h; simpa [mirrorOp] using hc
+    · simp only [Res.pure_ok] at h; subst h; simpa [mirrorOp] using hc
+    · simp at h
+  | addEndTagHandler hid =>
+    simp only [cUnitOp, Res.bind_ok] at h
+    obtain ⟨⟨s1, r⟩, hc, h⟩ := h
+    have hc := (callR_spec hc).1
+    split at h
+    · simp only [Res.pure_ok] at h; subst h; simpa [mirrorOp] using hc
+    · simp only [Res.pure_ok] at h; subst h; simpa [mirrorOp] using hc
+    · simp at h
+  | clearEndTagHandlers =>
+    simp only [cUnitOp, Res.bind_ok, Res.pure_ok] at h
+    obtain ⟨⟨s1, r⟩, hc, rfl⟩ := h
+    simpa [mirrorOp] using (callR_spec hc).1
+  | streaming f a =>
+    simp only [cUnitOp] at h
+    split at h
+    · simp only [Res.pure_ok] at h; subst h; simp [mirrorOp]
+    · rename_i reservedNull hasWriteAll hasDrop script
+      split at h
+      · rename_i hres
+        simp only [Res.pure_ok] at h; subst h
+        cases reservedNull <;> simp_all [mirrorOp]
+      · rename_i hres
+        have hres' : reservedNull = true := by cases reservedNull <;> simp_all
+        subst hres'
+        split at h
+        · rename_i hw
+          have hw' : hasWriteAll = false := by cases hasWriteAll <;> simp_all
+          subst hw'
+          simp only [Res.bind_ok, Res.pure_ok] at h
+          obtain ⟨env, _, rfl⟩ := h
+          simp [mirrorOp]
+        · rename_i hw
+          have hw' : hasWriteAll = true := by cases hasWriteAll <;> simp_all
+          subst hw'
+          simp only [Res.bind_ok, Res.pure_ok] at h
+          obtain ⟨⟨s1, r⟩, hc, rfl⟩ := h
+          simpa [mirrorOp, alloc] using (callR_spec hc).1
+  | iterGet dst =>
+    simp only [cUnitOp, Res.bind_ok] at h
+    obtain ⟨⟨s1, r⟩, hc, h⟩ := h
+    have hc := (callR_spec hc).1
+    split at h
+    · simp only [Res.pure_ok] at h; subst h; simpa [mirrorOp] using hc
+    · simp at h
+  | iterNext it =>
+    simp only [cUnitOp, Res.bind_ok, require_ok] at h
+    obtain ⟨_, _, ⟨h0, o⟩, hd, h⟩ := h
+    split at h
+    · simp only [Res.bind_ok, require_ok] at h
+      obtain ⟨_, _, h⟩ := h
+      split at h
+      · simp at h
+      · split at h
+        · simp only [Res.pure_ok] at h; subst h; simp [mirrorOp]
+        · simp only [Res.pure_ok] at h; subst h; simp [mirrorOp]
+    · simp at h
+  | iterFree it =>
+    simp only [cUnitOp, Res.bind_ok, require_ok, Res.pure_ok] at h
+    obtain ⟨_, _, ⟨env, h1, o1⟩, hrel, rfl⟩ := h
+    simp [mirrorOp]
+  | attrStrGet dst it f =>
+    simp only [cUnitOp, Res.bind_ok, require_ok] at h
+    obtain ⟨_, _, ⟨h0, o⟩, hd, h⟩ := h
+    have hv := deref_var hd
+    have ho := (deref_some hd).1
+    split at h
+    · rename_i pos len scope epoch hp
+      simp only [Res.bind_ok, require_ok] at h
+      obtain ⟨_, _, _, _, h⟩ := h
+      split at h
+      · simp at h
+      · simp only [Res.bind_ok] at h
+        obtain ⟨⟨s1, r⟩, hc, h⟩ := h
+        have hc := (callR_spec hc).1
+        obtain ⟨st, p⟩ := o
+        simp only at hp; subst hp
+        split at h
+        · simp only [Res.pure_ok] at h; subst h; simpa [mirrorOp, hv, ho] using hc
+        · simp at h
+    · simp at h
+  | strFree v =>
+    simp only [cUnitOp, Res.bind_ok, Res.pure_ok] at h
+    obtain ⟨env, hf, rfl⟩ := h
+    simp [mirrorOp]
+  | takeLastError dst =>
+    simp only [cUnitOp, Res.pure_ok] at h
+    subst h; simp [mirrorOp]
+
+/-- A whole handler body: the unit it returns to `R` is the one obtained by the mirrored Rust calls. -/
+theorem C17_wrapper_script (pol : Policy) (t : Tid) (ops : List COp) (s s' : HState R)
+    (h : cUnitOps pol t s ops = .ok s') :
+    ∃ rops : List ROp, s'.u = rops.foldl (fun u rop => (R.unitOp u rop).1) s.u := by
+  induction ops generalizing s with
+  | nil => simp [cUnitOps] at h; subst h; exact ⟨[], rfl⟩
+  | cons op rest ih =>
+    simp only [cUnitOps, Res.bind_ok] at h
+    obtain ⟨s1, h1, h2⟩ := h
+    obtain ⟨rops, hr⟩ := ih s1 h2
+    have hu := C17_wrapper_unit pol t s s1 op h1
+    cases hm : mirrorOp s.env op with
+    | none => rw [hm] at hu; exact ⟨rops, by rw [hr, hu]⟩
+    | some rop => rw [hm] at hu; exact ⟨rop :: rops, by rw [hr, hu]; rfl⟩
+
+/-- Invalid UTF-8 never reaches `R`: failure value, `Utf8Error` recorded for the calling thread. -/
+theorem C17_utf8_never_reaches_R (pol : Policy) (t : Tid) (s : HState R) (f : Nat) (args : List Bytes)
+    (isHtml : Bool) (dst : Nat) (err : Utf8Error) (hdec : decodeArgs args = .error err) :
+    cUnitOp pol t s (.fallible f args) =
+      .ok { s with env := (saveLastError s.env t (.utf8 err)).out (.code (-1)) } ∧
+    cUnitOp pol t s (.infallible f args isHtml) =
+      .ok { s with env := (saveLastError s.env t (.utf8 err)).out (.code (-1)) } ∧
+    cUnitOp pol t s (.intGet f args) =
+      .ok { s with env := (saveLastError s.env t (.utf8 err)).out (.code (-1)) } ∧
+    cUnitOp pol t s (.optStrGet dst f args) =
+      .ok { s with env := nullStr (saveLastError s.env t (.utf8 err)) dst } := by
+  simp [cUnitOp, hdec, pure]
+
+/-- Result encoding of a fallible setter: `Ok(())` ↦ 0, `Err(e)` ↦ -1 with `e` recorded for thread `t`. -/
+theorem C17_fallible_encoding (pol : Policy) (t : Tid) (s s' : HState R) (f : Nat)
+    (args a : List Bytes) (hdec : decodeArgs args = .ok a)
+    (h : cUnitOp pol t s (.fallible f args) = .ok s') :
+    match (R.unitOp s.u (.call f a false)).2.1 with
+    | .unit => s'.env.log.head? = some (.code 0)
+    | .err m => s'.env.log.head? = some (.code (-1)) ∧ s'.env.lastErr t = some (.rust m)
+    | _ => False := by
+  simp only [cUnitOp, hdec, Res.bind_ok] at h
+  obtain ⟨⟨s1, r⟩, hc, h⟩ := h
+  have hr := (callR_spec hc).2
+  subst hr
+  split at h
+  · rename_i heq
+    simp only [Res.pure_ok] at h; subst h
+    simp only at heq; rw [heq]; simp [Env.out]
+  · rename_i m heq
+    simp only [Res.pure_ok] at h; subst h
+    simp only at heq; rw [heq]; simp [Env.out, saveLastError]
+  · simp at h
+
+/-- Every failure value of a top-level entry point (`-1`, `NULL`) comes with `LAST_ERROR` of the calling
+    thread set. -/
+theorem C17_failure_sets_last_error (pol : Policy) (prog : Prog) (e e' : Env R) (c : Call R.Chunk)
+    (h : topStep pol prog e c = .ok e')
+    (hf : e'.log.head? = some (.code (-1)) ∨ e'.log.head? = some (.ptr true)) :
+    (e'.lastErr c.tid).isSome = true := by
+  obtain ⟨t, op⟩ := c
+  cases op with
+  | builderNew dst =>
+    simp only [topStep, Res.pure_ok] at h; subst h; simp [Env.out, Env.setVar, alloc] at hf
+  | selectorParse dst sb =>
+    simp only [topStep] at h
+    split at h
+    · simp only [Res.pure_ok] at h; subst h; simp [Env.out, Env.setVar, saveLastError]
+    · split at h
+      · simp only [Res.pure_ok] at h; subst h; simp [Env.out, Env.setVar, saveLastError]
+      · simp only [Res.pure_ok] at h; subst h; simp [Env.out, Env.setVar, alloc] at hf
+  | addDoc b r =>
+    simp only [topStep, Res.bind_ok, require_ok] at h
+    obtain ⟨_, _, ⟨h0, o⟩, hd, h⟩ := h
+    split at h
+    · simp only [Res.pure_ok] at h; subst h; simp [Env.out] at hf
+    · simp at h
+  | addElem b sel el cm tx =>
+    simp only [topStep, Res.bind_ok, require_ok] at h
+    obtain ⟨_, _, _, _, ⟨hs, os⟩, _, ⟨h0, o⟩, hd, h⟩ := h
+    split at h
+    · simp only [Res.pure_ok] at h; subst h; simp [Env.out] at hf
+    · simp at h
+  | build dst b enc mem strict esi =>
+    simp only [topStep, Res.bind_ok, require_ok] at h
+    obtain ⟨_, _, ⟨h0, o⟩, hd, h⟩ := h
+    split at h
+    · simp only [Res.bind_ok] at h
+      obtain ⟨elemR, _, h⟩ := h
+      split at h
+      · simp only [Res.pure_ok] at h; subst h; simp [Env.out, Env.setVar, saveLastError]
+      · split at h
+        · simp only [Res.pure_ok] at h; subst h; simp [Env.out, Env.setVar, saveLastError]
+        · split at h
+          · simp only [Res.pure_ok] at h; subst h; simp [Env.out, Env.setVar, saveLastError]
+          · simp only [Res.pure_ok] at h; subst h; simp [Env.out, Env.setVar, alloc] at hf
+    · simp at h
+  | write r chunk =>
+    simp only [topStep, Res.bind_ok, require_ok] at h
+    obtain ⟨_, _, ⟨h0, o⟩, hd, h⟩ := h
+    split at h
+    · simp at h
+    · simp only [Res.bind_ok, require_ok] at h
+      obtain ⟨_, _, ⟨rw', e1, res⟩, hdr, h⟩ := h
+      split at h
+      · simp only [Res.pure_ok] at h; subst h; simp [Env.out] at hf
+      · simp only [Res.pure_ok] at h; subst h; simp [Env.out, saveLastError]
+    · simp at h
+  | end_ r =>
+    simp only [topStep, Res.bind_ok, require_ok] at h
+    obtain ⟨_, _, ⟨h0, o⟩, hd, h⟩ := h
+    split at h
+    · simp at h
+    · simp only [Res.bind_ok, require_ok] at h
+      obtain ⟨_, _, ⟨rw', e1, res⟩, hdr, e2, hev, h⟩ := h
+      split at h
+      · simp only [Res.pure_ok] at h; subst h; simp [Env.out] at hf
+      · simp only [Res.pure_ok] at h; subst h; simp [Env.out, saveLastError]
+    · simp at h
+  | rewriterFree r =>
+    simp only [topStep, Res.bind_ok, require_ok] at h
+    obtain ⟨_, _, ⟨e1, h1, o1⟩, hrel, h⟩ := h
+    split at h
+    · simp only [Res.bind_ok, Res.pure_ok] at h
+      obtain ⟨e2, hev, rfl⟩ := h
+      simp [Env.out] at hf
+    · simp only [Res.pure_ok] at h; subst h; simp [Env.out] at hf
+  | builderFree b =>
+    simp only [topStep, Res.bind_ok, require_ok, Res.pure_ok] at h
+    obtain ⟨_, _, ⟨e1, h1, o1⟩, hrel, rfl⟩ := h
+    simp [Env.out] at hf
+  | selectorFree sv =>
+    simp only [topStep, Res.bind_ok, require_ok, Res.pure_ok] at h
+    obtain ⟨_, _, ⟨h0, o⟩, _, _, _, ⟨e1, h1, o1⟩, hrel, rfl⟩ := h
+    simp [Env.out] at hf
+  | strFree v =>
+    simp only [topStep, strFree] at h
+    split at h
+    · simp at h; subst h; simp [Env.out] at hf
+    · simp only [Res.bind_ok, require_ok, Res.pure_ok] at h
+      obtain ⟨_, _, ⟨e1, h1, o1⟩, hrel, rfl⟩ := h
+      simp [Env.out] at hf
+  | takeLastError dst =>
+    simp only [topStep, Res.pure_ok] at h; subst h
+    unfold takeLastError at hf
+    split at hf <;> simp [Env.out, Env.setVar, alloc] at hf
+
+/-- Finding F11: the rejection paths of `lol_html_*_streaming_*` return -1 and leave `LAST_ERROR`
+    exactly as it was (lib.rs:236-243), although the header promises "an error will be reported". -/
+theorem C17_streaming_failure_silent (pol : Policy) (t : Tid) (s : HState R) (f : Nat)
+    (w d : Bool) (script : Nat) :
+    cUnitOp pol t s (.streaming f .null) = .ok { s with env := s.env.out (.code (-1)) } ∧
+    cUnitOp pol t s (.streaming f (.mk false w d script)) = .ok { s with env := s.env.out (.code (-1)) } := by
+  simp [cUnitOp, pure]
+
+/-! ## Non-vacuity: a complete, permitted history on the concrete replay machine -/
+
+open LolHtml.Model.CApi.Mini in
+/-- Handler 0 (element): read the tag name and free it, attach a streaming handler with a drop
+    callback, call `set_attribute` with a name that is not UTF-8. Handler 1 (`write_all`): one write. -/
+def demoProg : Prog := fun i =>
+  if i = 0 then
+    ⟨[.strGet 10 0, .strFree 10, .streaming 10 (.mk true true true 1), .fallible FN_SET_ATTRIBUTE [[0xff], [49]]], none, 0⟩
+  else ⟨[.infallible 70 [[120]] true], none, 0⟩
+
+open LolHtml.Model.CApi.Mini in
+def demoCalls : List (Call MiniR.Chunk) :=
+  [ ⟨0, .builderNew 1⟩, ⟨0, .selectorParse 2 [42]⟩, ⟨0, .addElem 1 2 (some 0) none none⟩,
+    ⟨0, .build 3 1 [1] ⟨0, 1024, false⟩ true false⟩, ⟨0, .builderFree 1⟩,
+    ⟨1, .write 3 ⟨[⟨{ kind := .element, attrs := [[105, 100]] }, [0]⟩], []⟩⟩,
+    ⟨1, .end_ 3⟩, ⟨2, .rewriterFree 3⟩, ⟨0, .selectorFree 2⟩,
+    ⟨0, .takeLastError 5⟩, ⟨1, .takeLastError 6⟩, ⟨1, .strFree 6⟩ ]
+
+open LolHtml.Model.CApi.Mini in
+/-- The history succeeds under the stricter policy, frees everything, calls the drop callback of the one
+    streaming handler exactly once, reports the UTF-8 error to thread 1 (which made the `write`) and
+    nothing to thread 0. -/
+def demoCheck : Bool :=
+  match run .headerPlus demoProg (Env.init MiniR) demoCalls with
+  | .ok e =>
+    (leaks e).isEmpty && e.drops.length == 1 && (e.lastErr 0).isNone && (e.lastErr 1).isNone &&
+    e.log.take 3 == [.void, .taken (some (.utf8 ⟨0, some 1⟩)), .taken none]
+  | _ => false
+
+example : demoCheck = true := by decide +kernel
+
+/-- `str::from_utf8` vectors (values of `valid_up_to` / `error_len` as returned by rustc's std). -/
+example : utf8Check [0xff] = some ⟨0, some 1⟩ ∧ utf8Check [0x61, 0x62, 0xc3] = some ⟨2, none⟩ ∧
+    utf8Check [0xe2, 0x82] = some ⟨0, none⟩ ∧ utf8Check [0x61, 0xf0, 0x9f, 0x98] = some ⟨1, none⟩ ∧
+    utf8Check [0xc0, 0xaf] = some ⟨0, some 1⟩ ∧ utf8Check [0xed, 0xa0, 0x80] = some ⟨0, some 1⟩ ∧
+    utf8Check [0x6f, 0x6b, 0x80] = some ⟨2, some 1⟩ ∧ utf8Check [0xe2, 0x28, 0xa1] = some ⟨0, some 1⟩ ∧
+    utf8Check [0xf0, 0x9f, 0x28] = some ⟨0, some 2⟩ ∧ utf8Check [0xf0, 0x9f, 0x98, 0x28] = some ⟨0, some 3⟩ ∧
+    utf8Check [0xc3, 0xa9, 0xf0, 0x9f, 0x98, 0x80, 0x78, 0x00] = none ∧ utf8Check [0xf4, 0x90, 0x80, 0x80] = some ⟨0, some 1⟩ := by
   decide +kernel
 
 end LolHtml.Thm.C17
